@@ -441,6 +441,21 @@ package bus
 //@   modifies c.Channel.sent, c.Channel.lasttype, c.Channel.lastid, c.Channel.lastaction, c.Channel.lastservice, c.Channel.lastobject, c.o.stats[*]
 //@   ensures[C04] c.Channel.sent == old(c.Channel.sent) + 1 && c.Channel.lasttype == 2 && c.Channel.lastid == msg.Header.ID && c.Channel.lastaction == msg.Header.Action && c.Channel.lastservice == msg.Header.Service && c.Channel.lastobject == msg.Header.Object
 
+// Tracing must not feed itself: a trace event (signal 0x56) sent through a traced channel would be
+// traced again, without end (the server process dies of stack exhaustion). objectImpl.Trace is the
+// one place every traced message goes through; it emits nothing for the trace signal itself.
+//@ interface (h ObjectSignalHelper) SignalTraceObject(event EventTrace) (err error)
+//@   trusted
+//@   modifies everything
+//@ func findSignature(msg *net.Message, meta *object.MetaObject) (result string)
+//@   trusted
+//@   pure
+//@ func (o *objectImpl) Trace(msg *net.Message, id uint32)
+//@   tags C12
+//@   requires msg != nil && o.signal != nil
+//@   modifies everything
+//@   call SignalTraceObject#1: assert[C12] msg.Header.Action != 86
+
 // Message ids: allocated under the mutex, strictly advancing by 2 (distinct for fewer than 2^31 calls).
 //@ guarded_by (c *client) c.messageIDMutex: c.messageID
 //@ func (c *client) nextMessageID() (result uint32)
